@@ -774,14 +774,90 @@ def sample_elem(tag: str, text: Optional[str] = None, *children, **attrib):
     return e
 
 
+def _sample_copy(v, deep: bool, memo=None):
+    """copy.copy / copy.deepcopy of sample values (stand-in callables are shared)."""
+    memo = {} if memo is None else memo
+    if id(v) in memo:
+        return memo[id(v)]
+    if isinstance(v, SampleObj):
+        new = type(v)()
+        memo[id(v)] = new
+        for k, x in v.items():
+            new[k] = _sample_copy(x, True, memo) if deep and not callable(x) else x
+        return new
+    if isinstance(v, list):
+        new = []
+        memo[id(v)] = new
+        new.extend((_sample_copy(x, True, memo) if deep else x) for x in v)
+        return new
+    if isinstance(v, dict):
+        new = {}
+        memo[id(v)] = new
+        for k, x in v.items():
+            new[k] = _sample_copy(x, True, memo) if deep else x
+        return new
+    if isinstance(v, (tuple, set)):
+        return type(v)((_sample_copy(x, True, memo) if deep else x) for x in v)
+    return v
+
+
+def program_classes(prog, names) -> Dict[str, Dict[str, object]]:
+    """{class name: {method name: FunctionDef (own and inherited), '__bases__': [...]}} for the interpreter's object model."""
+    out: Dict[str, Dict[str, object]] = {}
+    for nm in names:
+        ci = prog.cls(nm)
+        if ci is None:
+            continue
+        d: Dict[str, object] = {}
+        for c in reversed(prog.mro(ci)):
+            d.update(c.methods)
+        d["__bases__"] = [b.qual.split(".")[-1] for b in prog.mro(ci)[1:]]
+        out[nm.split(".")[-1]] = d
+    return out
+
+
 def mini_exec(fn: ast.FunctionDef, args: Dict[str, object], budget: int = 2000, methods: Optional[Dict[str, ast.FunctionDef]] = None, _depth: int = 0,
-              functions: Optional[Dict[str, ast.FunctionDef]] = None, ctors: Optional[Set[str]] = None):
+              functions: Optional[Dict[str, ast.FunctionDef]] = None, ctors: Optional[Set[str]] = None,
+              classes: Optional[Dict[str, Dict[str, ast.FunctionDef]]] = None):
     """Runs a small, side-effect-free function of the analysed program on *sample* arguments with the analyser's own
     interpreter (assignments to names, if / for / while-free loops over lists and ranges, return, and the expression forms
     of _PathEval plus range / min / max / zip / enumerate / all / any).  Anything else raises _PathEval.Unknown."""
     pe = _PathEval(fn, [])
     env: Dict[str, object] = dict(args)
     steps = [0]
+
+    def run_method(m_, recv_, call_):
+        ps_ = [a.arg for a in m_.args.args]
+        decos_ = {d_.id for d_ in m_.decorator_list if isinstance(d_, ast.Name)}
+        if "staticmethod" in decos_:
+            cargs_, rest_ = {}, ps_
+        else:
+            cargs_, rest_ = {ps_[0]: recv_}, ps_[1:]
+        pos_ = []
+        for ax in call_.args:
+            if isinstance(ax, ast.Starred):
+                pos_.extend(ev(ax.value))
+            else:
+                pos_.append(ev(ax))
+        if len(pos_) > len(rest_):
+            raise _PathEval.Unknown(f"too many arguments for {m_.name}")
+        cargs_.update(zip(rest_, pos_))
+        for k in call_.keywords:
+            if k.arg:
+                cargs_[k.arg] = ev(k.value)
+        for p_, d_ in zip(ps_[len(ps_) - len(m_.args.defaults):], m_.args.defaults):
+            if p_ not in cargs_:
+                cargs_[p_] = ev(d_)
+        for a_, d_ in zip(m_.args.kwonlyargs, m_.args.kw_defaults):
+            if a_.arg not in cargs_ and d_ is not None:
+                cargs_[a_.arg] = ev(d_)
+        missing_ = [p_ for p_ in ps_ if p_ not in cargs_]
+        if missing_:
+            raise _PathEval.Unknown(f"call of {m_.name} without {missing_}")
+        steps[0] += 5
+        if steps[0] > budget:
+            raise _PathEval.Unknown("too many steps")
+        return mini_exec(m_, cargs_, budget, methods, _depth + 1, functions, ctors, classes)
 
     def ev(e):
         if isinstance(e, ast.Attribute):
@@ -801,6 +877,31 @@ def mini_exec(fn: ast.FunctionDef, args: Dict[str, object], budget: int = 2000, 
                 recv0 = None
             if isinstance(recv0, SampleObj) and e.func.attr in recv0 and callable(recv0[e.func.attr]) and not isinstance(recv0[e.func.attr], (SampleObj, ClassTok)):
                 return recv0[e.func.attr](*[ev(a_) for a_ in e.args], **{k.arg: ev(k.value) for k in e.keywords if k.arg})
+        if classes and isinstance(e, ast.Call) and _depth < 14:
+            # the object model of the program: `K(...)` builds a sample object of class K by running K.__init__, `obj.m(...)` runs the
+            # method of obj's class, `K.m(...)` a static / class method
+            leaf_ = e.func.attr if isinstance(e.func, ast.Attribute) else (e.func.id if isinstance(e.func, ast.Name) else None)
+            owner_ = e.func.value.id if isinstance(e.func, ast.Attribute) and isinstance(e.func.value, ast.Name) else None
+            if leaf_ in classes and not (isinstance(e.func, ast.Name) and e.func.id in env) and not (ctors and leaf_ in ctors) and \
+                    (isinstance(e.func, ast.Name) or (owner_ is not None and owner_ not in env and owner_ not in classes)):
+                obj_ = SampleObj(__kind__=leaf_, __bases__=list(classes[leaf_].get("__bases__", ())))
+                init_ = classes[leaf_].get("__init__")
+                if init_ is not None:
+                    run_method(init_, obj_, e)
+                return obj_
+            if owner_ in classes and owner_ not in env and isinstance(classes[owner_].get(leaf_), ast.FunctionDef):
+                return run_method(classes[owner_][leaf_], ClassTok(owner_), e)
+            if isinstance(e.func, ast.Attribute):
+                try:
+                    recv_k = ev(e.func.value)
+                except _PathEval.Unknown:
+                    recv_k = None
+                if isinstance(recv_k, SampleObj) and recv_k.get("__kind__") in classes and isinstance(classes[recv_k["__kind__"]].get(e.func.attr), ast.FunctionDef) \
+                        and not (e.func.attr in recv_k and callable(recv_k[e.func.attr])):
+                    return run_method(classes[recv_k["__kind__"]][e.func.attr], recv_k, e)
+        if isinstance(e, ast.Call) and unparse(e.func) in ("copy.copy", "copy.deepcopy", "deepcopy") and len(e.args) == 1 and \
+                not (isinstance(e.func, ast.Name) and e.func.id in env):
+            return _sample_copy(ev(e.args[0]), deep=not unparse(e.func).endswith("copy.copy"))
         if isinstance(e, ast.Call) and isinstance(e.func, ast.Attribute) and methods and e.func.attr in methods and _depth < 12:
             try:
                 recv = ev(e.func.value)
@@ -823,7 +924,7 @@ def mini_exec(fn: ast.FunctionDef, args: Dict[str, object], budget: int = 2000, 
                 for k in e.keywords:
                     if k.arg:
                         call_args[k.arg] = ev(k.value)
-                return mini_exec(m, call_args, budget, methods, _depth + 1, functions, ctors)
+                return mini_exec(m, call_args, budget, methods, _depth + 1, functions, ctors, classes)
         if isinstance(e, ast.Call) and isinstance(e.func, ast.Name) and functions and e.func.id in functions and _depth < 12:
             # a function of the program called by name (a nested helper sees the variables of the function around it)
             g_ = functions[e.func.id]
@@ -842,7 +943,7 @@ def mini_exec(fn: ast.FunctionDef, args: Dict[str, object], budget: int = 2000, 
             steps[0] += 5
             if steps[0] > budget:
                 raise _PathEval.Unknown("too many steps")
-            return mini_exec(g_, call_env, budget, methods, _depth + 1, functions, ctors)
+            return mini_exec(g_, call_env, budget, methods, _depth + 1, functions, ctors, classes)
         if isinstance(e, ast.Call) and ctors and (e.func.attr if isinstance(e.func, ast.Attribute) else getattr(e.func, "id", None)) in ctors:
             # building a node of the program: recorded, not executed
             leaf = e.func.attr if isinstance(e.func, ast.Attribute) else e.func.id
@@ -1073,6 +1174,20 @@ def mini_exec(fn: ast.FunctionDef, args: Dict[str, object], budget: int = 2000, 
             raise _PathEval.Unknown("join of non-strings")
         if isinstance(e, ast.Call) and isinstance(e.func, ast.Name) and e.func.id in ("range", "min", "max", "zip", "enumerate", "all", "any", "len", "list", "tuple", "bool", "sorted", "reversed", "dict", "set", "str", "int", "sum"):
             vals = [ev(a_) for a_ in e.args]
+            if e.func.id in ("len", "bool") and len(vals) == 1 and isinstance(vals[0], SampleObj) and not isinstance(vals[0], SampleElem):
+                # the length / truth of an object of the program is what its class says
+                special = "__len__" if e.func.id == "len" or "__bool__" not in vals[0] else "__bool__"
+                if special in vals[0] and callable(vals[0][special]):
+                    return vals[0][special]() if e.func.id == "len" else bool(vals[0][special]())
+                if classes and vals[0].get("__kind__") in classes and isinstance(classes[vals[0]["__kind__"]].get(special), ast.FunctionDef):
+                    m2_ = classes[vals[0]["__kind__"]][special]
+                    r_ = mini_exec(m2_, {m2_.args.args[0].arg: vals[0]}, budget, methods, _depth + 1, functions, ctors, classes)
+                    return r_ if e.func.id == "len" else bool(r_)
+                if methods and special in methods and vals[0].get("__kind__"):
+                    r_ = mini_exec(methods[special], {methods[special].args.args[0].arg: vals[0]}, budget, methods, _depth + 1, functions, ctors, classes)
+                    return r_ if e.func.id == "len" else bool(r_)
+                if e.func.id == "len":
+                    raise _PathEval.Unknown("len() of a sample object")
             f_ = {"range": range, "min": min, "max": max, "zip": zip, "enumerate": enumerate, "all": all, "any": any, "len": len, "list": list,
                   "tuple": tuple, "bool": bool, "sorted": sorted, "reversed": reversed, "dict": dict, "set": set, "str": str, "int": int, "sum": sum}[e.func.id]
             if e.func.id == "str" and any(isinstance(v_, SampleObj) for v_ in vals):
@@ -1265,8 +1380,21 @@ def mini_exec(fn: ast.FunctionDef, args: Dict[str, object], budget: int = 2000, 
                     for p_, d_ in zip(ps_[len(ps_) - len(_g.args.defaults):], _g.args.defaults):
                         if ps_.index(p_) >= len(vals):
                             call_env[p_] = ev(d_)
-                    return mini_exec(_g, call_env, budget, methods, _depth + 1, functions, ctors)
+                    return mini_exec(_g, call_env, budget, methods, _depth + 1, functions, ctors, classes)
                 env[st.name] = local_fn
+            elif isinstance(st, ast.AugAssign) and isinstance(st.target, ast.Subscript) and isinstance(st.op, (ast.Add, ast.Sub)) and not isinstance(st.target.slice, ast.Slice):
+                base = ev(st.target.value)
+                key_ = ev(st.target.slice)
+                if type(base) not in (list, dict):
+                    raise _PathEval.Unknown("augmented item store")
+                try:
+                    cur = base[key_]
+                except (IndexError, KeyError, TypeError):
+                    raise _Raised("item not found")
+                if isinstance(cur, list) and isinstance(st.op, ast.Add):
+                    cur.extend(ev(st.value))
+                else:
+                    base[key_] = cur + ev(st.value) if isinstance(st.op, ast.Add) else cur - ev(st.value)
             elif isinstance(st, ast.Expr) and isinstance(st.value, ast.Call):
                 ev(st.value)
             elif isinstance(st, ast.While):
@@ -1938,6 +2066,12 @@ def _shape_types(ctx, name: str) -> Set[str]:
 
 def rule_sibling_guards(ctx, rep: Report, rid="M2"):
     ci, prog = mw(ctx)
+    if _guard_builders_evaluable(ctx):
+        # both builders can be run on sample parameter lists: what they test is compared there (M16 / H18), however they are written
+        rep.add(rid, "the two MATLAB-side type-check builders agree (decided by running them on sample parameter lists)", True, "see the evaluation rule", f"{ci.mod.rel}:0",
+                nontrivial=False)
+        _sibling_guard_tables(ctx, rep, rid, ci, prog)
+        return
     a = _guard_builder_form(ctx, "_wrap_variable_arguments")
     b = _guard_builder_form(ctx, "_wrap_method_check_statement")
     rep.add(rid, "the two MATLAB-side type-check builders resolve the MATLAB class of an argument by the same chain", a[0] == b[0] and len(a[0]) >= 3,
@@ -1962,6 +2096,10 @@ def rule_sibling_guards(ctx, rep: Report, rid="M2"):
         rep.add(rid, f"{label}:the shape tests are chosen by the declared type name", bool(keyed) and all(ok_ for _, ok_ in keyed),
                 f"{[k for k, ok_ in keyed if not ok_][:2]}: looked up by the MATLAB class ('double') no Vector / Point2 / Point3 parameter gets its size test, "
                 f"so a matrix or a vector of another length selects the overload and is read as that type", f"{ci.mod.rel}:{prog.method('MatlabWrapper', label).lineno}")
+    _sibling_guard_tables(ctx, rep, rid, ci, prog)
+
+
+def _sibling_guard_tables(ctx, rep, rid, ci, prog):
     init = prog.method("MatlabWrapper", "__init__")
     tables = {}
     for st in walk_no_nested(init):
@@ -3648,3 +3786,119 @@ def slice_eval(fn, target: ast.expr, env: Dict[str, object], **kw):
     probe.body = body
     probe.decorator_list = []
     return mini_exec(probe, env, **kw)
+
+
+def sample_wrapper(ctx, **extra):
+    """A sample MatlabWrapper object: the class-level tables of the mixins and the literal attributes its constructors set."""
+    ci, prog = mw(ctx)
+    me = SampleObj()
+    for c in reversed(prog.mro(ci)):
+        for a, v in c.attrs.items():
+            try:
+                me[a] = ast.literal_eval(v)
+            except Exception:
+                pass
+        i = c.methods.get("__init__")
+        for st in (ast.walk(i) if i is not None else ()):
+            if isinstance(st, ast.Assign) and len(st.targets) == 1 and isinstance(st.targets[0], ast.Attribute) and unparse(st.targets[0].value) == "self":
+                try:
+                    me[st.targets[0].attr] = ast.literal_eval(st.value)
+                except Exception:
+                    pass
+    me.update(extra)
+    return me
+
+
+def _sample_args(specs):
+    def tn(name, *ns):
+        return SampleObj(__kind__="Typename", name=name, namespaces=list(ns), instantiations=[])
+    al = [SampleObj(__kind__="Argument", name=nm, default=None,
+                    ctype=SampleObj(__kind__="Type", typename=tn(t, *ns), is_const="", is_ref="", is_ptr="", is_shared_ptr="", is_basic=False))
+          for nm, t, ns in specs]
+    return SampleObj(__kind__="ArgumentList", args_list=al, list=lambda: list(al), names=lambda: [a["name"] for a in al], __len__=lambda: len(al))
+
+
+def _guard_builders_evaluable(ctx) -> bool:
+    def mk():
+        class _R:
+            prop = "-"
+
+            def __init__(self):
+                self.obs = []
+                self.units = {}
+
+            def add(self, rid, construct, ok, detail="", loc="", nontrivial=True):
+                self.obs.append(construct)
+        r = _R()
+        try:
+            rule_guard_builders_by_evaluation(ctx, r, "M16")
+        except AnalysisError:
+            return False
+        return r.units.get("guard_builder_runs", 0) >= 3
+    return ctx._get("guard_builders_evaluable", mk)
+
+
+def rule_guard_builders_by_evaluation(ctx, rep: Report, rid="M16"):
+    """The two builders of the MATLAB-side overload guards - `_wrap_variable_arguments` (constructors, free functions) and
+    `_wrap_method_check_statement` (methods, static methods) - give the same tests for the same parameter list: one
+    `isa(varargin{k}, <class>)` per parameter at its own position, the size tests of Vector / Point2 / Point3 chosen by the
+    declared type name, and the argument count of the whole list.  Decided by running both (the analyser's own interpreter)
+    on sample parameter lists and comparing the emitted conditions index by index."""
+    from .rules_ids import _all_methods
+    ci, prog = mw(ctx)
+    methods = _all_methods(prog, ci)
+    me = sample_wrapper(ctx)
+    va = prog.method("MatlabWrapper", "_wrap_variable_arguments")
+    mc = prog.method("MatlabWrapper", "_wrap_method_check_statement")
+    loc = f"{ci.mod.rel}:{va.lineno}"
+    lists = [[("a", "double", []), ("v", "Vector", ["gtsam"]), ("p", "Point2", ["gtsam"]), ("q", "Point3", []), ("m", "Matrix", []), ("s", "string", ["std"]),
+              ("k", "K", ["ns"]), ("n", "size_t", []), ("b", "bool", []), ("c", "char", []), ("u", "unsigned char", []), ("i", "int", []), ("t", "T", ["a", "b"])],
+             [("x", "Point3", ["gtsam"])], [], [("k1", "K", []), ("k2", "Vector", [])]]
+    shape_want = {"Vector": {"size(§,2)==1"}, "Point2": {"size(§,1)==2", "size(§,2)==1"}, "Point3": {"size(§,1)==3", "size(§,2)==1"}}
+    probs, evaluated = [], 0
+    for specs in lists:
+        texts = {}
+        try:
+            pv, pm = func_params(va), func_params(mc)
+            env_v = {pv[0]: me, pv[1]: _sample_args(specs)}
+            for p_, d_ in zip(pv[len(pv) - len(va.args.defaults):], va.args.defaults):
+                env_v.setdefault(p_, ast.literal_eval(d_))
+            texts["ctor/function"] = mini_exec(va, env_v, budget=12000, methods=methods)
+            texts["method"] = mini_exec(mc, {pm[0]: me, pm[1]: _sample_args(specs)}, budget=12000, methods=methods)
+        except (_PathEval.Unknown, _Raised, TypeError, KeyError, ValueError):
+            continue
+        if not all(isinstance(t, str) for t in texts.values()):
+            continue
+        evaluated += 1
+        per = {}
+        for who, t in texts.items():
+            conds: Dict[int, Set[str]] = {}
+            for m_ in re.finditer(r"(isa|size)\(varargin\{(\d+)\}(,[^)]*)\)(==\d+)?", t.replace(" ", "")):
+                conds.setdefault(int(m_.group(2)), set()).add(f"{m_.group(1)}(§{m_.group(3)}){m_.group(4) or ''}")
+            per[who] = conds
+        n_ = len(specs)
+        cnt = re.search(r"length\(varargin\)==(\d+)", texts["method"].replace(" ", ""))
+        if cnt is None or int(cnt.group(1)) != n_:
+            probs.append(f"a list of {n_} parameter(s): the method guard tests the count {cnt.group(1) if cnt else 'not at all'}")
+        if per["ctor/function"] != per["method"]:
+            k_ = next(k for k in sorted(set(per["ctor/function"]) | set(per["method"])) if per["ctor/function"].get(k) != per["method"].get(k))
+            probs.append(f"parameter {k_} ({specs[k_ - 1][1] if 0 < k_ <= n_ else '?'}): constructors / functions test {sorted(per['ctor/function'].get(k_, []))}, "
+                         f"methods test {sorted(per['method'].get(k_, []))}")
+        for who, conds in per.items():
+            if set(conds) - set(range(1, n_ + 1)):
+                probs.append(f"{who}: tests on positions {sorted(set(conds) - set(range(1, n_ + 1)))} that the list of {n_} does not have")
+            for k_, (nm, t, ns) in enumerate(specs, 1):
+                got = conds.get(k_, set())
+                isa = [c for c in got if c.startswith("isa(")]
+                if len(isa) != 1 and t not in (me.get("not_check_type") or []):
+                    probs.append(f"{who}: parameter {k_} ({t}) has {len(isa)} class test(s)")
+                sizes = {c for c in got if c.startswith("size(")}
+                if sizes != shape_want.get(t, set()):
+                    probs.append(f"{who}: parameter {k_} ({t}) has the size tests {sorted(sizes)}, {sorted(shape_want.get(t, set()))} expected")
+    rep.units["guard_builder_runs"] = evaluated
+    if evaluated == 0:
+        rep.add(rid, "guard builders evaluated on sample parameter lists", True, "not evaluable; M2 decides by structure", loc, nontrivial=False)
+        return
+    rep.add(rid, "guard builders:the same class and size tests for the same parameters, each at its own position", not probs,
+            f"{probs[:3]}: the overload a call reaches then depends on whether the callable is a method or a constructor / function, or a value of the "
+            f"wrong shape selects an overload and is read as that type", loc)
